@@ -50,7 +50,7 @@ class Renames:
                 digests = json.load(fh)
         except OSError:
             digests = {}
-        baseline = set(digests.pop('*functions', []))
+        baseline = set(digests.pop('*functions', {}))
         orphans = {k: d for k, d in digests.items() if k not in model.funcs}
         if orphans:
             by_digest = {}
